@@ -24,8 +24,7 @@ import (
 // ---- engine "walletchain-sync" (C15) ----
 //
 // ops (one reply line each; the Lean driver engine of the same name interprets the same lines on the model):
-//   init W=<MaxReorgDepth> batch=<recoveryBatchSize> recw=<n> naddr=<k> gt=<genesis unix time> fix=<0|1>
-//        (fix = what probeDisconnectFix observed on the real code: does disconnectBlock store the parent's hash?)
+//   init W=<MaxReorgDepth> batch=<recoveryBatchSize> recw=<n> naddr=<k> gt=<genesis unix time>
 //   blk id=<k> parent=<p> t=<unix> txs=<id>[c],...     declare a block (content only)
 //   ext id=<k> mode=<a|b|f>                            best chain grows by block k (+ notifications if running)
 //   reorg d=<n> br=<k1,k2,...> mode=<a|b|f>            drop d blocks, connect the branch bottom-up
@@ -618,34 +617,6 @@ func (r *syncRunner) oracle1(ctx string) string {
 	return strings.Join(v, "; ")
 }
 
-var probedFix = -1
-
-// probeDisconnectFix runs connect(1) / disconnect(1) on a real wallet and reports whether the synced-to hash
-// afterwards is the parent's hash (1) or all-zero (0).  The Lean model takes this as its `fixDisc` flag.
-func probeDisconnectFix() int {
-	if probedFix >= 0 {
-		return probedFix
-	}
-	probedFix = 0
-	env, err := newEnv()
-	if err != nil {
-		return 0
-	}
-	defer env.close()
-	if env.create(seedFor(1), params.GenesisBlock.Header.Timestamp.Add(-240*time.Hour), 0) != nil || !env.startSync(10*time.Second) {
-		return 0
-	}
-	b, _ := env.fc.declare(1, 0, params.GenesisBlock.Header.Timestamp.Unix()+600, nil)
-	_ = env.fc.push(b)
-	env.fc.deliver(chain.BlockConnected(b.meta()))
-	env.fc.pop()
-	env.fc.deliver(chain.BlockDisconnected(b.meta()))
-	if env.w.Manager.SyncedTo().Hash == *params.GenesisHash {
-		probedFix = 1
-	}
-	return probedFix
-}
-
 // ---- generator ----
 
 type gblock struct {
@@ -842,7 +813,6 @@ func (g *syncGen) offline(recw int) {
 
 func (syncEngine) Generate(rng *rand.Rand, tier string) []core.Case {
 	gt := params.GenesisBlock.Header.Timestamp.Unix()
-	fix := probeDisconnectFix()
 	n, steps := 36, 45
 	if tier == "thorough" {
 		n, steps = 900, 60
@@ -850,7 +820,7 @@ func (syncEngine) Generate(rng *rand.Rand, tier string) []core.Case {
 	var cases []core.Case
 	mk := func(recw int) *syncGen {
 		g := &syncGen{rng: rng, blocks: map[int]*gblock{0: {id: 0}}, best: []int{0}, nextBlk: 1, nextTx: 1, gt: gt, running: true, tags: map[string]bool{}, zero: map[int]bool{}}
-		g.emit("init W=%d batch=2000 recw=%d naddr=4 gt=%d fix=%d", waddrmgr.MaxReorgDepth, recw, gt, fix)
+		g.emit("init W=%d batch=2000 recw=%d naddr=4 gt=%d", waddrmgr.MaxReorgDepth, recw, gt)
 		return g
 	}
 	fin := func(g *syncGen, extra ...string) {
